@@ -109,7 +109,10 @@ def main(argv):
     if replay:
         d = rec['record']['case']
         print('replaying case: %s' % jdump(d))
-        run_cases(ctx, mod, only=d)
+        try:
+            run_cases(ctx, mod, only=d)
+        except Exception as exc:
+            ctx.flag_inconclusive('harness crashed during replay: %r' % (exc,))
         for sig, v in ctx.violations.items():
             print('  observed again: %s %s' % (v['first']['check'], jdump(v['first']['detail'])[:600]))
         if not ctx.violations:
@@ -125,6 +128,10 @@ def main(argv):
         run_cases(ctx, mod)
     except bootstrap.BootstrapError as exc:
         ctx.flag_inconclusive('bootstrap: %s' % exc)
+    except Exception as exc:          # a harness bug is never a verdict on the code under test
+        import traceback
+        ctx.extra['harness_crash'] = traceback.format_exc()[-2000:]
+        ctx.flag_inconclusive('harness crashed: %r' % (exc,))
     if partial:
         with open(partial, 'w') as f:
             f.write(jdump(ctx.partial()))
